@@ -136,6 +136,45 @@ def check_frame(ts, tsname, names, fields, rows_mode, docs):
     return fails
 
 
+IMPORT_ORDER_SUB = r"""
+import json, os, sys, warnings
+warnings.simplefilter("ignore")
+os.environ.setdefault("SPARK_LOCAL_IP", "127.0.0.1")
+import visions                                   # first: pyspark is not imported yet
+from visions.typesets import StandardSet
+assert "pyspark" not in sys.modules or os.environ.get("C17_ALLOW_EAGER") == "1"
+from pyspark.sql import SparkSession             # the user's own, later, import
+import pyspark.sql.types as T
+s = (SparkSession.builder.master("local[1]").appName("visions-verif-c17-sub").config("spark.ui.enabled", "false")
+     .config("spark.log.level", "OFF").config("spark.driver.host", "127.0.0.1").getOrCreate())
+s.sparkContext.setLogLevel("OFF")
+df = s.createDataFrame([(1, "a", 1.5)], T.StructType([T.StructField("i", T.IntegerType()), T.StructField("s", T.StringType()), T.StructField("f", T.DoubleType())]))
+ts = StandardSet()
+dt = ts.detect_type(df)
+print("RESULT " + json.dumps({"detect": {k: v.__name__ for k, v in dt.items()} if isinstance(dt, dict) else str(dt)}))
+s.stop()
+"""
+
+
+def import_order_probe():
+    import subprocess
+    import sys
+    env = dict(os.environ, PYTHONPATH=os.path.join(C.REPO, "src"), PYTHONHASHSEED="0", C17_ALLOW_EAGER="1")
+    try:
+        p = subprocess.run([sys.executable, "-W", "ignore", "-c", IMPORT_ORDER_SUB], env=env, capture_output=True, text=True, timeout=300)
+    except subprocess.TimeoutExpired:
+        return []
+    line = next((ln for ln in p.stdout.split("\n") if ln.startswith("RESULT ")), None)
+    if line is None:
+        return [{"what": f"a fresh process importing visions before pyspark failed to type a Spark DataFrame: {p.stderr[-200:]}", "class": "import-order:raises", "history": "import visions; import pyspark"}]
+    got = json.loads(line[7:])
+    want = {"i": "Integer", "s": "String", "f": "Float"}
+    if got["detect"] != want:
+        return [{"what": f"in a fresh process that imports visions before pyspark, detect_type of a Spark DataFrame (int, string, double) give {got}, the documented map gives {want}",
+                 "class": "import-order", "history": "import visions; import pyspark"}]
+    return []
+
+
 def replay(path):
     r = json.load(open(path))
     if "columns" not in r:
@@ -196,6 +235,10 @@ def run(args):
             fields = [(f"c{i}", t, ex, rnd.random() < 0.5) for i, (c, t, ex, d) in enumerate(pick)]
             n += 1
             new += check_frame(ts, tsname, names, fields, rnd.choice(["empty", "data"]), [p[3] for p in pick])
+    # a fresh process in which visions is imported BEFORE pyspark (lazy pyspark import in user code): same answers
+    for f in import_order_probe():
+        new.append(f)
+        n += 1
     # known finding probe: dotted column name
     import pyspark.sql.types as T
     dotted = check_frame(tss["standard_set"], "standard_set", {t.__name__ for t in tss["standard_set"].types}, [("x.y", T.IntegerType(), 1, True)], "data", ["Integer"])
